@@ -36,6 +36,14 @@ def FLOORS(tier):
         f["lam:" + lk] = 40 if q else 1000
     return f
 
+_FLOORS_BEFORE_ROUND9 = FLOORS
+
+
+def FLOORS(tier):      # noqa: F811 -- floors of the input classes added in round 9 (a quarter of what seed 0 observes in the quick tier)
+    f = _FLOORS_BEFORE_ROUND9(tier)
+    f.update({'history:earlier-life-then-clear': 87, 'history:sibling-of-a-common-ancestor:add-empty': 33, 'history:sibling-of-a-common-ancestor:copy': 28})
+    return f
+
 
 GADGET_OK = None
 
